@@ -59,6 +59,7 @@ def Spec.step (cfg : Cfg) (σ : Spec) : Op → Spec
   | .contains tq => σ.merge tq.garg
   | .quads tq => σ.merge tq.garg
   | .graphs => σ
+  | .choices c => σ.merge c
 
 def Spec.run (cfg : Cfg) (σ : Spec) (ops : List Op) : Spec := ops.foldl (Spec.step cfg) σ
 
@@ -67,6 +68,13 @@ def Spec.sees (cfg : Cfg) (σ : Spec) (e : Option Key) (t : Triple) : Prop :=
   match e with
   | none => if cfg.du = true then ∃ k, σ.has k t else σ.has cfg.dflt t
   | some k => if cfg.du = true ∧ k = cfg.dflt then ∃ k', σ.has k' t else σ.has k t
+
+/-- what `triples_choices` restricted to `e` must see: no graph given = the merged view under
+    `default_union`, the default graph otherwise; a given graph = that graph -/
+def Spec.seesChoice (cfg : Cfg) (σ : Spec) (e : Option Key) (t : Triple) : Prop :=
+  match e with
+  | none => if cfg.du = true then ∃ k, σ.has k t else σ.has cfg.dflt t
+  | some k => σ.has k t
 
 /-! ### Observations of the model (pure functions of the state) -/
 
@@ -84,6 +92,10 @@ def obsContains (cfg : Cfg) (m : Mem) (pat : TPat) (e : Option Key) : Bool :=
 /-- `ds.quads((pat, e))` on state `m` -/
 def obsQuads (m : Mem) (pat : TPat) (e : Option Key) : List Quad := expandCtxs (m.triples pat e)
 
+/-- `ds.triples_choices(ch, context=e)` on state `m` -/
+def obsChoices (cfg : Cfg) (m : Mem) (ch : Choice) (e : Option Key) : List Triple :=
+  ch.pats.flatMap (fun p => (m.triples p (resolveChoiceCtx cfg e)).map (·.1))
+
 /-- all observables the property names, on one state -/
 structure Agree (cfg : Cfg) (m : Mem) (σ : Spec) : Prop where
   quads : ∀ q, q ∈ obsQuads m TPat.all none ↔ σ.has q.2 q.1
@@ -99,6 +111,9 @@ structure Agree (cfg : Cfg) (m : Mem) (σ : Spec) : Prop where
   triples : ∀ pat e t, t ∈ obsTriples cfg m pat e ↔ pat.matches t = true ∧ σ.sees cfg e t
   triplesNodup : ∀ pat e, (obsTriples cfg m pat e).Nodup
   contains : ∀ pat e, obsContains cfg m pat e = true ↔ ∃ t, pat.matches t = true ∧ σ.sees cfg e t
+  choices : ∀ ch e t, t ∈ obsChoices cfg m ch e ↔
+      (∃ p ∈ ch.pats, p.matches t = true) ∧ σ.seesChoice cfg e t
+  viewChoices : ∀ k ch t, t ∈ vChoices m k ch ↔ (∃ p ∈ ch.pats, p.matches t = true) ∧ σ.has k t
 
 /-! ### Statements -/
 
@@ -133,6 +148,7 @@ def Op.targets (cfg : Cfg) : Op → Option (List Key)
   | .contains tq => some (tq.garg.adds.map (·.2))
   | .quads tq => some (tq.garg.adds.map (·.2))
   | .graphs => some []
+  | .choices c => some (c.adds.map (·.2))
 
 /-- Operations on graph `g` leave the content of every other graph unchanged
     (in particular reads with identifiers / same-store views change no graph at all). -/
@@ -185,6 +201,37 @@ def Statement_union_view : Prop :=
         pat.matches t = true ∧ (if cfg.du = true then ∃ k, content m k t else content m cfg.dflt t)) ∧
     (obsTriples cfg m pat none).Nodup ∧
     (cfg.du = true → obsTriples cfg m pat (some cfg.dflt) = obsTriples cfg m pat none)
+
+/-- `triples_choices` is a finite union of `triples` reads over one resolved graph; restricted to
+    an empty or unknown graph it returns nothing (both `default_union` values, the default graph
+    included: this entry point has no default ↔ union mapping); with no graph given it reads the
+    merged view under `default_union` and the default graph otherwise; and whenever the graph
+    is not the default graph under `default_union` it is literally the union of the `triples`
+    answers for the dispatched patterns. -/
+def Statement_triples_choices : Prop :=
+  ∀ (cfg : Cfg) (m : Mem) (ch : Choice) (c : GArg),
+    (cgTriplesChoices cfg m ch c).2 = obsChoices cfg (step cfg m (.choices c)) ch c.key ∧
+    (∀ e t, t ∈ obsChoices cfg m ch e ↔
+        ∃ p ∈ ch.pats, t ∈ (m.triples p (resolveChoiceCtx cfg e)).map (·.1)) ∧
+    (∀ k, c.key = some k → (∀ t, ¬ content (cgTriplesChoices cfg m ch c).1 k t) →
+        (cgTriplesChoices cfg m ch c).2 = []) ∧
+    (∀ t, t ∈ obsChoices cfg m ch none ↔
+        (∃ p ∈ ch.pats, p.matches t = true) ∧
+          (if cfg.du = true then ∃ k, content m k t else content m cfg.dflt t)) ∧
+    (∀ k t, t ∈ obsChoices cfg m ch (some k) ↔ (∃ p ∈ ch.pats, p.matches t = true) ∧ content m k t) ∧
+    (∀ e, (∀ k, e = some k → ¬(cfg.du = true ∧ k = cfg.dflt)) →
+        obsChoices cfg m ch e = ch.pats.flatMap (fun p => obsTriples cfg m p e))
+
+/-- A pattern whose predicate is a property path is evaluated over exactly the graph a plain
+    pattern with the same graph arguments is read from (4th element of the quad, `context=`
+    keyword — which wins — or none), for `triples` and for `in`. -/
+def Statement_path_pattern_graph : Prop :=
+  ∀ (cfg : Cfg) (m : Mem) (tq : TQ) (c : GArg),
+    cgPathGraph cfg tq c = resolveCtx cfg (effKey tq c) ∧
+    (cgTriples cfg m tq c).2 = ((cgTriples cfg m tq c).1.triples tq.pat (cgPathGraph cfg tq c)).map (·.1) ∧
+    cgPathGraphContains cfg tq = resolveCtx cfg tq.garg.key ∧
+    (cgContains cfg m tq).2 =
+      !(((cgContains cfg m tq).1.triples tq.pat (cgPathGraphContains cfg tq)).map (·.1)).isEmpty
 
 /-! ### Simulation -/
 
@@ -377,12 +424,51 @@ theorem sim_step {cfg : Cfg} {m : Mem} {σ : Spec} (h : Sim cfg m σ) (op : Op) 
     rw [spocEff_eq]
     exact sim_merge h _
   | graphs => exact sim_touch h
+  | choices c => exact sim_merge h c
 
 theorem sim_run {cfg : Cfg} (ops : List Op) :
     ∀ {m : Mem} {σ : Spec}, Sim cfg m σ → Sim cfg (run cfg m ops) (σ.run cfg ops) := by
   induction ops with
   | nil => intro m σ h; exact h
   | cons op ops ih => intro m σ h; exact ih (sim_step h op)
+
+/-! ### helpers for `triples_choices` -/
+
+theorem resolveChoiceCtx_eq {cfg : Cfg} {e : Option Key}
+    (h : ∀ k, e = some k → ¬(cfg.du = true ∧ k = cfg.dflt)) : resolveChoiceCtx cfg e = resolveCtx cfg e := by
+  cases e with
+  | none =>
+    rw [resolveCtx_none]
+    simp only [resolveChoiceCtx]
+  | some k => rw [resolveCtx_some (h k rfl)]; rfl
+
+theorem mem_obsChoices {cfg : Cfg} {m : Mem} {ch : Choice} {e : Option Key} {t : Triple} :
+    t ∈ obsChoices cfg m ch e ↔
+      (∃ p ∈ ch.pats, p.matches t = true) ∧ ∃ c, (t, c) ∈ m.qs ∧ ctxOk (resolveChoiceCtx cfg e) c = true := by
+  unfold obsChoices
+  simp only [List.mem_flatMap, mem_triples_fst]
+  constructor
+  · rintro ⟨p, hp, h1, h2⟩; exact ⟨⟨p, hp, h1⟩, h2⟩
+  · rintro ⟨⟨p, hp, h1⟩, h2⟩; exact ⟨p, hp, h1, h2⟩
+
+theorem exists_ctx_iff {m : Mem} {cfg : Cfg} {e : Option Key} {t : Triple} :
+    (∃ c, (t, c) ∈ m.qs ∧ ctxOk (resolveChoiceCtx cfg e) c = true) ↔
+      (match e with
+       | none => if cfg.du = true then ∃ k, (t, k) ∈ m.qs else (t, cfg.dflt) ∈ m.qs
+       | some k => (t, k) ∈ m.qs) := by
+  cases e with
+  | none =>
+    by_cases hdu : cfg.du = true
+    · simp only [resolveChoiceCtx, hdu, if_true, ctxOk_none, and_true]
+    · simp only [resolveChoiceCtx, hdu, if_false, Bool.false_eq_true]
+      constructor
+      · rintro ⟨c, h1, h2⟩; rw [ctxOk_some.mp h2] at h1; exact h1
+      · intro h1; exact ⟨_, h1, ctxOk_some.mpr rfl⟩
+  | some k =>
+    simp only [resolveChoiceCtx]
+    constructor
+    · rintro ⟨c, h1, h2⟩; rw [ctxOk_some.mp h2] at h1; exact h1
+    · intro h1; exact ⟨_, h1, ctxOk_some.mpr rfl⟩
 
 /-! ### Observables under the simulation -/
 
@@ -502,6 +588,24 @@ theorem agree_of_sim {cfg : Cfg} {m : Mem} {σ : Spec} (h : Sim cfg m σ) : Agre
     unfold obsContains
     rw [notEmpty_iff]
     exact exists_congr (fun t => mem_obsTriples h pat e t)
+  choices := by
+    intro ch e t
+    rw [mem_obsChoices, exists_ctx_iff]
+    refine and_congr_right (fun _ => ?_)
+    cases e with
+    | none =>
+      by_cases hdu : cfg.du = true <;> simp only [Spec.seesChoice, hdu, if_true, if_false, h.has, Bool.false_eq_true]
+    | some k => simp only [Spec.seesChoice, h.has]
+  viewChoices := by
+    intro k ch t
+    unfold vChoices vTriples
+    simp only [List.mem_flatMap, mem_triples_fst]
+    constructor
+    · rintro ⟨p, hp, h1, c, h2, h3⟩
+      rw [ctxOk_some.mp h3] at h2
+      exact ⟨⟨p, hp, h1⟩, (h.has _ _).mp h2⟩
+    · rintro ⟨⟨p, hp, h1⟩, h2⟩
+      exact ⟨p, hp, h1, k, (h.has _ _).mpr h2, ctxOk_some.mpr rfl⟩
 
 /-! ### Proofs of the statements -/
 
@@ -654,6 +758,15 @@ theorem isolation : Statement_isolation := by
     · exact Or.inl
   | graphs =>
     simp only [step, cgGraphs, touch_qs]
+  | choices c =>
+    simp only [Op.targets, Option.some.injEq] at hks
+    subst hks
+    simp only [step, mem_graphEff_qs]
+    constructor
+    · rintro (e1 | e1)
+      · exact e1
+      · exact absurd e1 (not_mem_adds hh)
+    · exact Or.inl
 
 theorem shared_triple_survives : Statement_shared_triple_survives := by
   intro cfg m t g h p hgh hc
@@ -753,6 +866,35 @@ theorem union_view : Statement_union_view := by
     unfold obsTriples
     rw [resolveCtx_dflt_du hdu, resolveCtx_none, if_pos hdu]
 
+theorem triples_choices : Statement_triples_choices := by
+  intro cfg m ch c
+  refine ⟨rfl, ?_, ?_, ?_, ?_, ?_⟩
+  · intro e t
+    simp only [obsChoices, List.mem_flatMap]
+  · intro k hk hc
+    show obsChoices cfg (graphEff cfg m c) ch c.key = []
+    apply List.eq_nil_iff_forall_not_mem.mpr
+    intro t ht
+    obtain ⟨_, h2⟩ := mem_obsChoices.mp ht
+    rw [exists_ctx_iff, hk] at h2
+    exact hc t (content_iff.mpr h2)
+  · intro t
+    rw [mem_obsChoices, exists_ctx_iff]
+    simp only [content_iff]
+  · intro k t
+    rw [mem_obsChoices, exists_ctx_iff]
+    simp only [content_iff]
+  · intro e he
+    simp only [obsChoices, obsTriples, resolveChoiceCtx_eq he]
+
+theorem path_pattern_graph : Statement_path_pattern_graph := by
+  intro cfg m tq c
+  refine ⟨?_, rfl, ?_, rfl⟩
+  · simp only [cgPathGraph, pickCtx_key, spocKey_nodefault, effKey]
+  · show resolveCtx cfg (pickCtx (asView (spocKey cfg tq false)) (spocKey cfg (.tri tq.pat) false)).key = _
+    rw [pickCtx_key, asView_key, spocKey_nodefault, spocKey_nodefault]
+    cases tq.garg.key <;> rfl
+
 /-! ### Non-vacuity: a concrete history (two graphs sharing a triple, a created-but-empty
     graph 95, an unknown graph 94, removals) on which the hypotheses above are met -/
 
@@ -773,6 +915,14 @@ example : (cgTriples exDs (run exDs Mem.empty exOps) .nil .none).2 = [(1, 10, 20
 example : (cgTriples exDu (run exDu Mem.empty exOps) .nil .none).2 = [(1, 10, 20), (2, 10, 21)] := by decide
 example : (cgTriples exDu (run exDu Mem.empty exOps) .nil (.view 95)).2 = [] := by decide
 example : WF (run exDs Mem.empty exOps) := ⟨by decide, by decide, by decide⟩
+-- triples_choices: predicate list [10, 11]; the empty graph 95 yields nothing, no graph = default / union
+example : (cgTriplesChoices exDs (run exDs Mem.empty exOps) (.pred none [10, 11] none) (.view 95)).2 = [] := by decide
+example : (cgTriplesChoices exDs (run exDs Mem.empty exOps) (.pred none [10, 11] none) .none).2 = [(1, 10, 20)] := by decide
+example : (cgTriplesChoices exDu (run exDu Mem.empty exOps) (.subj [] none none) .none).2 = [(1, 10, 20), (2, 10, 21)] := by decide
+example : (cgTriplesChoices exDu (run exDu Mem.empty exOps) (.obj none none [21, 20]) (.ident 91)).2 = [(2, 10, 21), (1, 10, 20)] := by decide
+-- a path pattern with graph 95 as 4th element is evaluated over graph 95; with no graph: default / union
+example : cgPathGraph exDs (.quad (none, none, none) (.ident 95)) .none = some 95 := by decide
+example : cgPathGraph exDs (.tri (none, none, none)) .none = some 99 ∧ cgPathGraph exDu (.tri (none, none, none)) .none = none := by decide
 
 /-! ### The defects of the pinned code (before the `fix:` commits), kept as regression witnesses -/
 
